@@ -26,6 +26,7 @@ type Case struct {
 	Path    string         `json:"path"`
 	SrcOpts gen.WriterOpts `json:"srcopts"`
 	Sorting []int          `json:"sorting,omitempty"`
+	Lead    int            `json:"lead,omitempty"` // >0: byte array leaves are empty in the first Lead rows and non-empty afterwards
 }
 
 var paths = []string{"WriteRows", "WriteRows", "WriteRows", "WriteRowGroup(file)", "WriteRowGroup(file,same-config)"}
@@ -44,6 +45,9 @@ func genCase(t *rapid.T) Case {
 	c.Path = paths[rapid.IntRange(0, len(paths)-1).Draw(t, "path")]
 	c.SrcOpts = gen.WriterOptions(t, cols, bias)
 	c.SrcOpts.Pool = ""
+	if rapid.IntRange(0, 3).Draw(t, "lead") == 0 {
+		c.Lead = rapid.IntRange(1, 48).Draw(t, "leadn")
+	}
 	if rapid.IntRange(0, 3).Draw(t, "sorting") == 0 {
 		for i, col := range cols {
 			if col.MaxRep == 0 && len(col.Path) == 1 && len(c.Sorting) < 2 && rapid.Bool().Draw(t, "sc") {
@@ -184,6 +188,10 @@ func sameHist(rec []ref.TVal, want []int64) bool {
 func runCase(c Case, o *kit.Obs) *kit.Failure {
 	cols := ref.Columns(&c.Schema)
 	rows := c.Plan.ExpandWith(&c.Schema)
+	if c.Lead > 0 {
+		gen.LeadEmpty(&c.Schema, rows, c.Lead)
+		o.Class("lead-empty")
+	}
 	data, err := produce(c, cols, rows)
 	if err != nil {
 		o.Rejected()
